@@ -357,7 +357,8 @@ func applyProfile(c *RunConfig, ch *simrt.Chooser, p string) {
 	case "C14":
 		c.IsolationOracle = true
 		c.LongDelayPct = 0
-		c.Spares, c.NonVoters = 0, 0
+		c.Spares = 0
+		c.NonVoters = pick(ch, 0, 1, 2) // an isolated minority may consist of a voter and non-voters
 		c.PreVoteDisabled = []bool{false}
 		c.Voters = pick(ch, 3, 5, 5)
 		c.Faults = map[string]int{"partition": 3, "heal": 2, "isolate_hot": 2}
